@@ -68,7 +68,7 @@ def rule_store(ctx):
         seen = b.reach([0], avoid=ctx.both(inf, lambda n: n in {c.bb for c in rm_ok}))
         escapes = [r for r in b.returns() if r in seen]
         R.ob('STORE-reset-edges', b.path, not escapes and bool(rm_ok), 'reset removes all outgoing edges of the node it was given, on every path' if not escapes and rm_ok
-             else 'reset can return without removing the outgoing edges of its node', ctx.where(b), props=('C06', 'C08', 'C01', 'C02', 'C19', 'C20'))
+             else 'reset can return without removing the outgoing edges of its node', ctx.where(b), props=('C06', 'C08', 'C01', 'C02', 'C09', 'C19', 'C20'))
         clears = set()
         for (bb, si, place, rv, ln) in b.stores:
             po = b.orig_place(place)
@@ -82,7 +82,7 @@ def rule_store(ctx):
         seen = b.reach([0], avoid=ctx.both(inf, lambda n: n in clears))
         escapes = [r for r in b.returns() if r in seen]
         R.ob('STORE-reset-output', b.path, not escapes and bool(clears), 'reset drops the cached output of the node it was given, on every path' if not escapes and clears
-             else 'reset can return without dropping the cached output', ctx.where(b), props=('C01', 'C19', 'C08'))
+             else 'reset can return without dropping the cached output', ctx.where(b), props=('C01', 'C19', 'C08', 'C09', 'C02'))
     # argument order of the reachability / order queries
     for role, dagfn, props in (('trans_req', DAG + 'contains_transitive_edge', ('C05', 'C04', 'C03')), ('topo_cmp', DAG + 'topo_cmp', ('C04',))):
         b = getattr(roles, role)
@@ -688,7 +688,7 @@ def rule_bottomup(ctx):
         qs = [(c, q) for c, q in qs if q['dir'] == 'in' and q.get('item') and 'ResourceDependencyObj' in q['item']]
         good = len(qs) == 1 and isinstance(qs[0][1]['variants'], frozenset) and qs[0][1]['variants'] >= {'Read', 'Write'} and qs[0][1]['variants'] <= {'Read', 'Write'}
         R.ob('BU-S1', b.path, good, 'a reported resource change is examined against both the read and the write dependencies on that resource' if good
-             else 'a reported change is examined only against %s dependencies' % (sorted(qs[0][1]['variants']) if qs and isinstance(qs[0][1]['variants'], frozenset) else '?'), ctx.where(b), props=('C03',))
+             else 'a reported change is examined only against %s dependencies' % (sorted(qs[0][1]['variants']) if qs and isinstance(qs[0][1]['variants'], frozenset) else '?'), ctx.where(b), props=('C03', 'C08'))
         if qs:
             _loop_feeds_try_sched(ctx, b, qs[0][0], bu, 'BU-S1-feeds')
     # S2..S4 in execute-and-schedule
@@ -1032,7 +1032,7 @@ def rule_queue(ctx):
                 if any(r in seen for r in b.returns()):
                     bad = s
             R.ob('Q3-paired', key, bad is None and bool(srem), 'a node removed from the queue\'s vector is also removed from its set' if bad is None and srem
-                 else 'a node is removed from the vector but stays in the set (it can never be scheduled again)', ctx.where(b, r0.bb), props=P)
+                 else 'a node is removed from the vector but stays in the set (it can never be scheduled again)', ctx.where(b, r0.bb), props=('C04', 'C03'))
         # the node returned is the node removed from the set
         for d in b.defs.get(0, []):
             if d[0] == 'stmt' and d[3]['k'] == 'aggr' and d[3]['ak'].get('variant') == 'Some':
@@ -1040,7 +1040,7 @@ def rule_queue(ctx):
                 for s in srem:
                     so = b.orig_operand(s.args[1])
                     good = ro == so
-                    R.ob('Q3-same-node', key, good, 'the node returned is the node removed' if good else 'returned %s but removed %s from the set' % (b.describe_origins(ro), b.describe_origins(so)), ctx.where(b, d[1]), props=P)
+                    R.ob('Q3-same-node', key, good, 'the node returned is the node removed' if good else 'returned %s but removed %s from the set' % (b.describe_origins(ro), b.describe_origins(so)), ctx.where(b, d[1]), props=('C04', 'C03'))
     # Q3-index: an index used to remove from the vector is the element's position in the vector
     for name in ('q_pop', 'q_pop_least'):
         b = bu[name]
@@ -1066,7 +1066,7 @@ def rule_queue(ctx):
                     inner = names[names.index('enumerate') + 1:]  # adaptors applied before enumerate
                     good = not any(x in ('rev', 'skip', 'filter', 'filter_map', 'step_by', 'skip_while', 'chain', 'zip') for x in inner)
                     why = 'the index comes from an enumeration applied after %s: it is not the position in the vector' % [x for x in inner if x in ('rev', 'skip', 'filter', 'filter_map', 'step_by')]
-            R.ob('Q3-index', b.path, good, 'the index used for removal is the position of the selected element in the vector' if good else why, ctx.where(b, r0.bb), props=P)
+            R.ob('Q3-index', b.path, good, 'the index used for removal is the position of the selected element in the vector' if good else why, ctx.where(b, r0.bb), props=('C04', 'C03'))
     # Q1-sort-always: the sort helper sorts on every path, or skips only under a dirty flag that every order-disturbing mutation sets
     inf = ctx.infeasible(srt)
     sb = {c.bb for c in srt.find_calls(lambda c: c.qname in SORT_FNS)}
